@@ -12,6 +12,8 @@ import (
 	"fmt"
 	"io"
 	"os"
+	"sort"
+	"strconv"
 	"time"
 
 	"github.com/jf-tech/go-corelib/caches"
@@ -32,6 +34,8 @@ import (
 	"github.com/jf-tech/omniparser/idr"
 	"github.com/jf-tech/omniparser/schemahandler"
 	"github.com/jf-tech/omniparser/transformctx"
+
+	"verifharness/vh"
 )
 
 // Entry is one projected Read result: a record (output JSON bytes + raw record checksum), a
@@ -312,6 +316,63 @@ func (c *Compiled) RunOwn(input []byte, ext map[string]string, memoOff bool) (tr
 		tr = append(tr, Entry{Kind: "rec", JSON: string(b), Sum: sum})
 	}
 	return append(tr, Entry{Kind: "cap"})
+}
+
+// RawNodes runs a case through the public API and hands every delivered raw record node to f
+// (while the node is still current).
+func (c *Compiled) RawNodes(input []byte, ext map[string]string, f func(n *idr.Node)) {
+	defer func() { _ = recover() }()
+	t, err := c.Schema.NewTransform("in", bytes.NewReader(input), &transformctx.Ctx{ExternalProperties: ext})
+	if err != nil {
+		return
+	}
+	for i := 0; i < maxReads(input); i++ {
+		_, err := t.Read()
+		if err == nil {
+			if raw, rerr := t.RawRecord(); rerr == nil {
+				if n, ok := raw.Raw().(*idr.Node); ok {
+					f(n)
+				}
+			}
+			continue
+		}
+		if !errs.IsErrTransformFailed(err) {
+			return
+		}
+	}
+}
+
+// CoqJV prints what idr.J2NodeToInterface returned as a Model.Pipeline.jv term, object keys
+// sorted bytewise (the order json.Marshal emits them in).
+func CoqJV(v interface{}) string {
+	switch x := v.(type) {
+	case nil:
+		return "JNull"
+	case string:
+		return "(JStr " + vh.CoqHex([]byte(x)) + ")"
+	case float64:
+		return "(JNum " + vh.CoqHex([]byte(strconv.FormatFloat(x, 'f', -1, 64))) + ")"
+	case bool:
+		return "(JBool " + vh.CoqHex([]byte(strconv.FormatBool(x))) + ")"
+	case []interface{}:
+		var xs []string
+		for _, e := range x {
+			xs = append(xs, CoqJV(e))
+		}
+		return "(JArr " + vh.CoqList(xs) + ")"
+	case map[string]interface{}:
+		keys := make([]string, 0, len(x))
+		for k := range x {
+			keys = append(keys, k)
+		}
+		sort.Strings(keys)
+		var xs []string
+		for _, k := range keys {
+			xs = append(xs, "("+vh.CoqHex([]byte(k))+", "+CoqJV(x[k])+")")
+		}
+		return "(JObj " + vh.CoqList(xs) + ")"
+	}
+	return "(JStr " + vh.CoqHex([]byte(fmt.Sprintf("<%T>", v))) + ")"
 }
 
 // ---- hidden process state switches ----------------------------------------------------------------
